@@ -17,7 +17,7 @@ from typing import Any
 
 DEFAULT = {'solver': 'cg500', 'throw': False, 'options': 'dflt', 'callback': 'default'}
 FIELDS = ('solver', 'throw', 'options', 'callback')
-SNAPSHOT_MODES = ('task', 'ctxrun', 'callsoon', 'tothread')
+SNAPSHOT_MODES = ('task', 'ctxrun', 'callsoon', 'tothread', 'threadctx')
 CLAUSES = ('S', 'R', 'D', 'K', 'U', 'I', 'N')
 
 
@@ -183,7 +183,7 @@ class RefConfig:
         self.thread_inherits = thread_inherits
 
     def ctxnew(self, parent: str | None, new: str, mode: str) -> None:
-        if parent is None or (mode == 'thread' and not self.thread_inherits):
+        if parent is None or (mode == 'thread' and not self.thread_inherits) or mode == 'taskfresh':
             base = dict(DEFAULT)
         else:
             base = dict(self.stacks[parent][-1])
